@@ -131,6 +131,13 @@ def apply(seq, op):
             seq.invalidate_rel()
     elif name == "copy":
         return ("REPLACE", seq.copy())
+    elif name == "split_edit":
+        # the pieces of a split are edited in place; the source must be left alone (returns a digest of the pieces)
+        pieces = seq.split(list(a["caps"]))
+        for p in pieces:
+            p.transpose(a["n"])
+            p.set_channel(a["c"])
+        return [_summary(p) for p in pieces]
     elif name == "getters":
         calls = [lambda: seq.get_message_pairings(), lambda: seq.get_interleaved_message_pairings(),
                  lambda: seq.get_message_times_of_type([MT.TIME_SIGNATURE, MT.KEY_SIGNATURE]), lambda: seq.is_empty(),
@@ -218,12 +225,14 @@ def op_strategy(names):
         "read_abs": st.just({}), "read_rel": st.just({}), "refresh": st.just({}),
         "inval_abs": st.just({}), "inval_rel": st.just({}), "copy": st.just({}),
         "getters": st.fixed_dictionaries({"n": st.integers(0, 50)}),
+        "split_edit": st.fixed_dictionaries({"caps": st.lists(st.integers(1, 40), min_size=0, max_size=3), "n": st.sampled_from([1, -1, 12]),
+                                             "c": st.integers(0, 3)}),
     }
     return st.sampled_from(list(names)).flatmap(lambda n: table[n].map(lambda a, n=n: [n, a]))
 
 
 ALL_OPS = ["add_abs", "add_rel", "concatenate", "merge", "cutoff", "normalise", "ow_abs", "ow_rel", "pad", "set_channel", "scale",
            "transpose", "quantise", "qnl", "qan", "it_abs", "it_rel", "read_abs", "read_rel", "refresh", "inval_abs", "inval_rel",
-           "copy", "getters", "refresh", "it_abs", "it_rel", "read_abs", "read_rel", "scale_down"]
+           "copy", "getters", "refresh", "it_abs", "it_rel", "read_abs", "read_rel", "scale_down", "split_edit"]
 MUTATOR_OPS = ["add_abs", "add_rel", "concatenate", "merge", "cutoff", "normalise", "pad", "set_channel", "scale", "transpose",
                "quantise", "qnl", "it_abs", "it_rel", "transpose", "set_channel", "scale", "it_abs", "it_rel"]
